@@ -31,5 +31,5 @@ EXPLANATION = ('for every result class C in csep/models.py: the real C.__init__,
 TECHNIQUE = ('relational obligations over the real constructors / to_dict / loader (symbolic leaves, abstract file holding the JSON value), '
              'one group per result class enumerated from the AST; z3; bounded write/load of real evaluation results as labelled stand-in')
 LEVEL_TEXT = ('other: factory totality and field preservation are proved per result class for symbolic leaf values under the JSON contract; '
-              'leaf-type stability of what the evaluation functions store, and the region round trip, are bounded only')
-LEVEL_NOTE = 'JSON round trip assumed for JSON-stable leaves; result classes enumerated syntactically; region part bounded only'
+              'the region round trip is proved up to the constructor call (same origins, same order, same spacing); leaf-type stability of what the evaluation functions store and float formatting through JSON are bounded only')
+LEVEL_NOTE = 'JSON round trip assumed for JSON-stable leaves; result classes enumerated syntactically; region rebuilt from the same origins (proved), its lookups through JSON bounded'
